@@ -26,7 +26,8 @@ from common import hexb
 RULE = ("cases = (a) pipelines: scanner inputs (direct found_host calls, cache-file text, remote hosts-file bytes) "
         "with names containing separators, newlines, '#', spaces, commas, NUL, non-ASCII letters and digits, "
         "dots in every position, lengths {1,63,106,107,253,254,5000,70000}, addresses likewise; the emitted "
-        "stream cut into reads of {1, 2, line length +-1, 4096, random}; a scratch hosts file with foreign lines; "
+        "stream cut into reads of {1, 2, 1..5 (a record spans three and more reads), line length +-1, 4096, random}; "
+        "a scratch hosts file with foreign lines; "
         "(b) arbitrary host-list payloads handed to the client; (c) arbitrary scanner streams handed to the "
         "server under arbitrary chunkings (including over-long lines). Non-trivial = at least one record was "
         "emitted / skipped / delivered; distinct = distinct canonical input")
@@ -242,7 +243,7 @@ class Server:
             self.mux.flush()
             guard += 1
         wire = self.wfile.written[w0:]
-        payload = None
+        payload = None      # None: this read queued no HOST_LIST frame at all
         if len(wire) >= 8:
             _s1, _s2, chan, cmd, ln = struct.unpack('!ccHHH', wire[:8])
             payload = wire[8:8 + ln]
@@ -475,8 +476,8 @@ def rand_name(rng, big_ok=True):
     if r < 0.6:
         n = rng.choice([1, 63, 100, 106, 107, 114, 115, 252, 253, 254, 300])
         return rand_label(rng, n)
-    if r < 0.65 and big_ok:
-        return rand_label(rng, rng.choice([5000, 70000]))
+    if r < 0.62 and big_ok:
+        return rand_label(rng, rng.choice([2000, 5000]))      # 70000 is in the fixed corpus (driver time)
     if r < 0.72:
         n = rng.choice([240, 248, 253])
         return rand_label(rng, 5) + '.' + rand_label(rng, n)
@@ -528,9 +529,15 @@ def chunkings(rng, stream):
     n = len(stream)
     if n == 0:
         return []
-    k = rng.randrange(6)
-    if k == 0 and n <= 600:
-        sizes = [1] * n
+    k = rng.randrange(9)
+    if k in (0, 6) and n <= 800:
+        sizes = [1] * n                      # byte by byte: every record spans many reads
+    elif k in (7, 8) and n <= 800:
+        sizes = []                           # reads of 1..5 bytes: a 20..60-byte record spans 4..60 reads
+        tot = 0
+        while tot < n and len(sizes) < 3000:
+            sizes.append(rng.randrange(1, 6))
+            tot += sizes[-1]
     elif k == 1 and n <= 1200:
         sizes = [2] * (n // 2 + 1)
     elif k == 2:
@@ -621,8 +628,9 @@ def pipeline_case(ctx, case, tmpdir):
         tag, lo, payload, wire = srv.read(ch)
         log.ins.append('ready ' + hexb(ch))
         if tag == 'sent':
-            log.outs.append('sent leftover=%s payload=%s' % (hexb(lo), hexb(payload)))
-            wires.append((wire, payload))
+            log.outs.append('sent leftover=%s payload=%s' % (hexb(lo), 'none' if payload is None else hexb(payload)))
+            if payload is not None:
+                wires.append((wire, payload))
         else:
             log.outs.append(tag)
             ctx.violation('C19:server:' + tag, case=case, expected='hostwatch_ready forwards every read',
@@ -745,8 +753,8 @@ def stream_case(ctx, stream, chunks):
             log.outs.append(tag)
             ctx.hist('stream:' + tag)
             return log
-        log.outs.append('sent leftover=%s payload=%s' % (hexb(lo), hexb(payload)))
-        payloads += payload
+        log.outs.append('sent leftover=%s payload=%s' % (hexb(lo), 'none' if payload is None else hexb(payload)))
+        payloads += payload or b''
     fed = b''.join(chunks)
     cut = fed.rfind(b'\n') + 1
     ctx.hist('stream:ok')
@@ -771,14 +779,33 @@ def gen_cases(ctx, tmpdir):
     for ops in corpus:
         case = dict(kind='pipeline', ops=ops, encoding='utf-8', chunks=None, ports=[0, 12300], hosts_file=HOSTS_FILES[3])
         logs.append(pipeline_case(ctx, case, tmpdir))
-    for _ in range(ctx.scale(140, 2500)):
+    # one record cut into three and more reads (consecutive reads without a newline)
+    recs = [('found', 'build-agent-07.ci.internal.example.com', '10.20.30.40'), ('found', 'db1.example', '10.20.30.41')]
+    whole = b'build-agent-07,10.20.30.40\nbuild-agent-07.ci.internal.example.com,10.20.30.40\ndb1,10.20.30.41\ndb1.example,10.20.30.41\n'
+    for size in (1, 3, 5, 7, 20):
+        chunks = [hexb(whole[i:i + size]) for i in range(0, len(whole), size)]
+        case = dict(kind='pipeline', ops=recs, encoding='utf-8', chunks=chunks, ports=[0, 12300], hosts_file=HOSTS_FILES[0])
+        logs.append(pipeline_case(ctx, case, tmpdir))
+    for _ in range(ctx.scale(15, 300)):
+        sizes, tot = [], 0
+        while tot < len(whole):
+            sizes.append(rng.randrange(1, 6))
+            tot += sizes[-1]
+        chunks, pos = [], 0
+        for n in sizes:
+            chunks.append(hexb(whole[pos:pos + n]))
+            pos += n
+        case = dict(kind='pipeline', ops=recs, encoding='utf-8', chunks=[c for c in chunks if c != '-'], ports=[0, 12300],
+                    hosts_file=HOSTS_FILES[0])
+        logs.append(pipeline_case(ctx, case, tmpdir))
+    for _ in range(ctx.scale(100, 2500)):
         case = dict(kind='pipeline', ops=rand_scanner_ops(rng), encoding=rng.choice(['utf-8', 'utf-8', 'ascii']),
                     chunks=None, ports=rng.choice([[0, 12300], [12299, 12300], [65535, 0]]),
                     hosts_file=rng.choice(HOSTS_FILES))
         logs.append(pipeline_case(ctx, case, tmpdir))
     for p in [b'x\n', b'foo,1\n', b',\n', b'a,b,c\n', b'', b'\n', b'ok,1.2.3.4', b'name,1.2.3.4\nname,5.6.7.8\n']:
         logs.append(payload_case(ctx, p, tmpdir))
-    for _ in range(ctx.scale(250, 4000)):
+    for _ in range(ctx.scale(180, 4000)):
         logs.append(payload_case(ctx, rand_payload(rng), tmpdir, ports=rng.choice([(0, 12300), (1024, 1025)]),
                                  hosts_file=rng.choice(HOSTS_FILES)))
     for _ in range(ctx.scale(120, 2000)):
